@@ -26,12 +26,14 @@ import (
 	"sort"
 	"strings"
 	"sync"
+	"sync/atomic"
 	"time"
 
 	"github.com/logrange/logrange/api"
 	"github.com/logrange/logrange/pkg/cursor"
 	"github.com/logrange/logrange/pkg/model"
 	"github.com/logrange/logrange/pkg/model/tag"
+	"github.com/logrange/logrange/pkg/partition"
 	"github.com/logrange/logrange/pkg/tindex"
 	"github.com/logrange/range/pkg/records"
 
@@ -53,6 +55,33 @@ type EOp struct {
 	Dry  bool   `json:"dry,omitempty"`  // trunc: DRYRUN
 	Mode int    `json:"mode,omitempty"` // trunc: 0 plain (deletes empty partitions), 1 MAXSIZE 1 (drops chunks), 2 MAXDBSIZE 1 (global), 3 BEFORE now
 	Who  int    `json:"who,omitempty"`  // async: client number
+	// write (not rpc, at least one record accepted): operations carried out DURING the write, at the schedule
+	// hook "write-event" of partition.Service.Write (the writer holds the partition);
+	// query with Wait: operations carried out while the request waits for new data at the end of its
+	// partitions (hook "wait-new-data" of the cursor; the cursor holds them)
+	During []EOp `json:"during,omitempty"`
+	Wait   bool  `json:"wait,omitempty"` // query: WaitTimeout 1 from the tail
+	Alt    bool  `json:"alt,omitempty"`  // write: another spelling of the same tag line (p="t<n>")
+}
+
+// schedule hooks of pkg/partition and pkg/cursor are process-wide: sessions run side by side, so the
+// hook is dispatched by the goroutine that writes ("g:<gid>") or by the source that is waited on ("s:<src>")
+var e2eHooks sync.Map
+var e2eHookOnce sync.Once
+
+func e2eInstallHooks() {
+	e2eHookOnce.Do(func() {
+		partition.VC10SetHook(func(point, src string) {
+			if f, ok := e2eHooks.Load(fmt.Sprintf("g:%d", curGid())); ok {
+				f.(func(point, src string))(point, src)
+			}
+		})
+		cursor.VC11SetHook(func(point, src string) {
+			if f, ok := e2eHooks.Load("s:" + src); ok {
+				f.(func(point, src string))(point, src)
+			}
+		})
+	})
 }
 
 const e2eMaxRec = 1024
@@ -107,14 +136,33 @@ type e2e struct {
 	prev    []row
 	counts  map[string]int
 	noK     bool
-	held    bool // the time index rebuilder is held: requests queue up until they are served by "serve"
+	// sync sessions: the workers of the time index rebuilder are held (VC02HoldRebuilder) and its requests
+	// are served by the session itself (VC02ServeQueued = the rebuilder's own serve): a panic of the code
+	// under test is a verdict then, not the end of the process.  Normally after every operation;
+	// between a "hold" and the next "serve" operation they wait in the list (deferServe).
+	held       bool
+	deferServe bool
+	mu         sync.Mutex
+	stuckCh    chan struct{}
+	stuckOnce  sync.Once
+	abandoned  bool // the session's goroutine never came back: nothing but viol may be read
 	pipes   map[string]bool
 }
 
 func (e *e2e) fail(class, detail string) {
+	e.mu.Lock()
 	if e.viol == nil {
 		e.viol = &Violation{Class: class, Detail: detail}
 	}
+	e.mu.Unlock()
+}
+
+// setStuck: the index mutex stays locked after a panic inside tindex: whoever goes back into the code
+// under test (the write or the request an operation was nested in) will never return.  The session's
+// goroutine is abandoned by runSync when this is signalled.
+func (e *e2e) setStuck() {
+	e.stuck = true
+	e.stuckOnce.Do(func() { close(e.stuckCh) })
 }
 
 // guarded runs f in this goroutine and turns a panic of the code under test into a verdict
@@ -126,10 +174,10 @@ func (e *e2e) guarded(who string, f func()) (panicked bool) {
 			switch {
 			case strings.Contains(msg, "was not acquired"):
 				e.fail("e2e-double-release:"+who, "tindex.Release panicked: "+msg)
-				e.stuck = true // Release panics with the index mutex held
+				e.setStuck() // Release panics with the index mutex held
 			case strings.Contains(msg, "locked exclusively") || strings.Contains(msg, "UnlockExclusively"):
 				e.fail("e2e-locked-left:"+who, "panic: "+msg)
-				e.stuck = true
+				e.setStuck()
 			default:
 				e.fail("e2e-panic:"+who, "panic: "+msg)
 			}
@@ -140,6 +188,7 @@ func (e *e2e) guarded(who string, f func()) (panicked bool) {
 }
 
 func newE2E() (*e2e, error) {
+	e2eInstallHooks()
 	srv, err := StartServer(ServerOpts{MaxRecordSize: e2eMaxRec, MaxChunkSize: 4096})
 	if err != nil {
 		return nil, err
@@ -147,7 +196,7 @@ func newE2E() (*e2e, error) {
 	// the provider's own sweeper must not decide when a kept cursor goes
 	cursor.VC03SetTimeouts(srv.Provider, time.Hour, time.Hour)
 	return &e2e{srv: srv, t0: time.Now(), srcIdx: map[string]int{}, tagOf: map[int]int{}, ts: 1000,
-		kept: map[int]*keptCur{}, counts: map[string]int{}, pipes: map[string]bool{}}, nil
+		kept: map[int]*keptCur{}, counts: map[string]int{}, pipes: map[string]bool{}, stuckCh: make(chan struct{})}, nil
 }
 
 func (e *e2e) close() {
@@ -282,8 +331,27 @@ func (e *e2e) do(op EOp) (who string, acts []sessEv) {
 		case "emptytags":
 			tags = ""
 		}
+		if op.Alt && op.Fail == "" {
+			tags = fmt.Sprintf("p=\"t%d\"", op.Tag) // not the key of tmap: parsed, then found by its canonical line
+		}
 		it := e.batch(op)
 		var err error
+		wa := -1
+		if op.Fail != "badtags" && op.Fail != "emptytags" {
+			wa = e.newActor(fmt.Sprintf("(PWrite %d true)", op.Tag))
+		}
+		if len(op.During) > 0 && !e.noK && wa >= 0 && !(op.Rpc && it.failAt < 0) {
+			key := fmt.Sprintf("g:%d", curGid())
+			fired := false
+			e2eHooks.Store(key, func(point, src string) {
+				if point != "write-event" || fired {
+					return
+				}
+				fired = true
+				e.during("write-holding", wa, []string{src}, op.During)
+			})
+			defer e2eHooks.Delete(key)
+		}
 		if op.Rpc && it.failAt < 0 {
 			evs := make([]*api.LogEvent, len(it.evs))
 			for i, le := range it.evs {
@@ -316,8 +384,8 @@ func (e *e2e) do(op EOp) (who string, acts []sessEv) {
 			// not a C14 matter, but the generator relies on it
 			e.counts["write-outcome-unexpected"]++
 		}
-		if op.Fail != "badtags" && op.Fail != "emptytags" {
-			acts = append(acts, sessEv{actor: e.newActor(fmt.Sprintf("(PWrite %d true)", op.Tag))})
+		if wa >= 0 {
+			acts = append(acts, sessEv{actor: wa})
 		}
 	case "query":
 		who = "query"
@@ -335,6 +403,38 @@ func (e *e2e) do(op EOp) (who string, acts []sessEv) {
 		if op.Keep {
 			req.Limit = 20000 // above QueryMaxLimit: the backend corrects it and caches the cursor
 		}
+		a := -1
+		heldIdx := e.liveMatching(op.M)
+		var hookDone chan struct{}
+		var hookState int32 // 0 not started, 1 started (nested operations under way or done), 2 switched off
+		if op.Wait && op.Fail == "" && !e.noK && len(e.liveMatching(op.M)) > 0 {
+			// the request reaches the end of its partitions at once and waits (1 s at most) for new data
+			// holding them; the operations of op.During run meanwhile, in the goroutine of the hook
+			req.Pos, req.Limit, req.WaitTimeout = "tail", 5, 1
+			a = e.newActor(fmt.Sprintf("(PQuery %s 50 None)", gNats(op.M)))
+			hookDone = make(chan struct{})
+			var keys []string
+			var held []string
+			for _, p := range e.liveMatching(op.M) {
+				held = append(held, e.srcs[p])
+			}
+			for _, sname := range held {
+				k := "s:" + sname
+				keys = append(keys, k)
+				e2eHooks.Store(k, func(point, src string) {
+					if point != "wait-new-data" || !atomic.CompareAndSwapInt32(&hookState, 0, 1) {
+						return
+					}
+					defer close(hookDone)
+					e.during("query-waiting", a, held, op.During)
+				})
+			}
+			defer func() {
+				for _, k := range keys {
+					e2eHooks.Delete(k)
+				}
+			}()
+		}
 		var res *api.QueryResult
 		var err error
 		e.guarded(who, func() {
@@ -343,11 +443,26 @@ func (e *e2e) do(op EOp) (who string, acts []sessEv) {
 				err = nil // the end of the data was reached: the result is there
 			}
 		})
+		waited := false
+		if hookDone != nil {
+			if !atomic.CompareAndSwapInt32(&hookState, 0, 2) {
+				// the hook has started: its operations belong to this request (the main goroutine was
+				// blocked in Query meanwhile, or the cursor is cached by now: it holds the partitions either way)
+				<-hookDone
+				waited = true
+			}
+			delete(e.kept, -2)
+		}
 		if op.Fail == "badquery" {
 			break // refused before anything is acquired
 		}
-		a := e.newActor(fmt.Sprintf("(PQuery %s 50 None)", gNats(op.M)))
+		if a < 0 {
+			a = e.newActor(fmt.Sprintf("(PQuery %s 50 None)", gNats(op.M)))
+		}
 		kept := false
+		if op.Wait && req.WaitTimeout > 0 {
+			op.Keep = true // a request with a wait time-out is cached
+		}
 		if op.Keep && err == nil && res != nil && res.NextQueryRequest.ReqId != 0 && cursor.VC03Cached(srv.Provider, res.NextQueryRequest.ReqId) {
 			if old, ok := e.kept[op.Cur]; ok {
 				// the slot is taken: the old cursor stays in the cache under another slot
@@ -355,11 +470,19 @@ func (e *e2e) do(op EOp) (who string, acts []sessEv) {
 			}
 			first := req
 			first.ReqId = res.NextQueryRequest.ReqId
-			e.kept[op.Cur] = &keptCur{req: res.NextQueryRequest, first: first, m: op.M, srcs: e.liveMatching(op.M), actor: a}
+			srcs := e.liveMatching(op.M)
+			if waited {
+				srcs = heldIdx // what it acquired when it started, whatever was created or removed meanwhile
+			}
+			e.kept[op.Cur] = &keptCur{req: res.NextQueryRequest, first: first, m: op.M, srcs: srcs, actor: a}
 			kept = true
 			who = "query-kept"
 		}
-		acts = append(acts, sessEv{actor: a, hold: kept})
+		if waited && kept {
+			// K has the actor at CHold already (recorded when the wait began)
+		} else {
+			acts = append(acts, sessEv{actor: a, hold: kept})
+		}
 	case "cont":
 		kc, ok := e.kept[op.Cur]
 		if !ok {
@@ -405,18 +528,24 @@ func (e *e2e) do(op EOp) (who string, acts []sessEv) {
 		who = "provider-sweep"
 		left := -1
 		e.guarded(who, func() { left = cursor.VC03EvictIdle(srv.Provider) })
-		if left > 0 {
-			e.fail("e2e-cursor-stuck", fmt.Sprintf("%d cursors stay in the provider's cache after the sweep although no request is under way", left))
+		busy := 0
+		if e.kept[-2] != nil {
+			busy = 1 // the request that is waiting for new data right now: its cursor is busy, not idle
+		}
+		if left > busy {
+			e.fail("e2e-cursor-stuck", fmt.Sprintf("%d cursors stay in the provider's cache after the sweep although only %d requests are under way", left, busy))
 		}
 		var slots []int
 		for s := range e.kept {
-			slots = append(slots, s)
+			if s >= 0 {
+				slots = append(slots, s)
+			}
 		}
 		sort.Ints(slots)
 		for _, s := range slots {
 			acts = append(acts, sessEv{actor: e.kept[s].actor})
+			delete(e.kept, s)
 		}
-		e.kept = map[int]*keptCur{}
 	case "trunc":
 		who = "truncate"
 		q := "TRUNCATE"
@@ -445,10 +574,7 @@ func (e *e2e) do(op EOp) (who string, acts []sessEv) {
 		acts = append(acts, sessEv{actor: e.newActor(fmt.Sprintf("(PWrite %d false)", op.Tag))})
 	case "hold":
 		// from now on rebuild requests wait in the rebuilder's list (as they do when its 10 workers are busy)
-		if !e.held {
-			srv.Partitions.VC02HoldRebuilder()
-			e.held = true
-		}
+		e.deferServe = e.held
 		who = "rebuilder-hold"
 	case "rebuild":
 		// a reader that works with the chunk list it got a moment ago asks for the time index of every
@@ -475,9 +601,10 @@ func (e *e2e) do(op EOp) (who string, acts []sessEv) {
 		if e.held {
 			n := 0
 			e.guarded(who, func() { n = len(srv.Partitions.VC02ServeQueued()) })
-			if n > 0 {
+			if n > 0 && e.deferServe {
 				e.counts["rebuild-requests-served-late"]++
 			}
+			e.deferServe = false
 		}
 	case "show":
 		who = "show-partitions"
@@ -490,9 +617,59 @@ func (e *e2e) do(op EOp) (who string, acts []sessEv) {
 // rebuilderIdle: no index rebuild request is queued or being served (a positive observation)
 func (e *e2e) rebuilderIdle() bool {
 	if e.held {
-		return true // requests wait until a "serve" operation (the end of the session serves what is left)
+		if !e.deferServe {
+			n := 0
+			if e.guarded("rebuilder-serve", func() { n = len(e.srv.Partitions.VC02ServeQueued()) }) {
+				return true
+			}
+			if n > 0 {
+				e.counts["rebuild-requests-served"]++
+			}
+		}
+		return true // (deferred: they wait until a "serve" operation; the end of the session serves what is left)
 	}
 	return WaitFor(15*time.Second, func() bool { return len(e.srv.Partitions.VC02Queued()) == 0 })
+}
+
+// during: the outer operation (actor a of K) holds the partitions srcs right now; this is recorded
+// (K: the actor has reached CHold; O: one more holder), then the nested operations run one by one
+func (e *e2e) during(who string, a int, srcs []string, nested []EOp) {
+	if e.stuck || e.viol != nil {
+		return
+	}
+	// the partitions may be new: the table numbers them
+	if _, err := e.table(); err != nil {
+		return
+	}
+	h := &keptCur{actor: a}
+	for _, sname := range srcs {
+		if i, ok := e.srcIdx[sname]; ok {
+			h.srcs = append(h.srcs, i)
+		}
+	}
+	slot := -1
+	if who == "query-waiting" {
+		slot = -2
+	}
+	e.kept[slot] = h
+	e.counts["during:"+who]++
+	if err := e.settle(EOp{K: who}, who, []sessEv{{actor: a, hold: true}}); err != nil {
+		e.fail("e2e-harness", err.Error())
+	}
+	for _, op := range nested {
+		if e.stuck || e.viol != nil {
+			break
+		}
+		op.During = nil
+		op.Wait = false
+		e.counts["during:"+who+":"+op.K]++
+		if err := e.syncStep(op); err != nil {
+			e.fail("e2e-harness", err.Error())
+		}
+	}
+	if slot == -1 {
+		delete(e.kept, slot)
+	}
 }
 
 // syncStep: one operation of a sync session, then the table, the oracle and the K events
@@ -501,12 +678,20 @@ func (e *e2e) syncStep(op EOp) error {
 	if who == "" {
 		return nil
 	}
+	return e.settle(op, who, acts)
+}
+
+// settle: after an operation (or at a point inside one): the table, the oracle and the K events
+func (e *e2e) settle(op EOp, who string, acts []sessEv) error {
 	e.counts["op:"+who]++
 	if e.stuck || e.viol != nil {
 		return nil
 	}
 	if !e.rebuilderIdle() {
 		e.fail("e2e-rebuilder-stuck", "the time index rebuilder does not finish")
+		return nil
+	}
+	if e.stuck || e.viol != nil {
 		return nil
 	}
 	// O: readers = number of kept cursors over the partition; nothing exclusive; what vanished was unused.
@@ -568,7 +753,7 @@ func (e *e2e) syncStep(op EOp) error {
 	if !e.noK && len(acts) > 0 {
 		for k := range acts {
 			if acts[k].actor < 0 {
-				acts[k].actor = e.newActor(fmt.Sprintf("(PTrunc %s %s [] false None)", gNats(op.M), gNats(gone)))
+				acts[k].actor = e.newActor(fmt.Sprintf("(PTrunc %s %s [] false None [] [])", gNats(op.M), gNats(gone)))
 			}
 		}
 		acts[len(acts)-1].snap = cur
@@ -680,9 +865,43 @@ func runSync(ops []EOp) (*e2e, error) {
 		return nil, err
 	}
 	defer e.close()
-	if e.prev, err = e.table(); err != nil {
-		return nil, err
+	// the session runs in a goroutine of its own: after a panic that left the index mutex locked it
+	// may never come back from the operation the panicking one was nested in
+	var rerr error
+	done := make(chan struct{})
+	go func() {
+		defer close(done)
+		rerr = e.syncBody(ops)
+	}()
+	select {
+	case <-done:
+	case <-e.stuckCh:
+		select {
+		case <-done:
+		case <-time.After(500 * time.Millisecond):
+			e.abandoned = true
+		}
+	case <-time.After(180 * time.Second):
+		e.fail("e2e-deadlock", "a sync session did not finish within 180 s")
+		e.abandoned = true
 	}
+	if e.abandoned {
+		e.stuck = true
+		return e, nil
+	}
+	if rerr != nil {
+		return nil, rerr
+	}
+	return e, nil
+}
+
+func (e *e2e) syncBody(ops []EOp) error {
+	var err error
+	if e.prev, err = e.table(); err != nil {
+		return err
+	}
+	e.srv.Partitions.VC02HoldRebuilder()
+	e.held = true
 	if os.Getenv("VERIF_C14_PASSERBY") != "" {
 		// self-test of the harness: a passer-by that brackets every partition all the time, the way
 		// cleanupTsIndex does once a minute; the session must stay quiet
@@ -713,24 +932,24 @@ func runSync(ops []EOp) (*e2e, error) {
 			break
 		}
 		if err := e.syncStep(op); err != nil {
-			return nil, err
+			return err
 		}
 	}
 	// the session ends: the rebuilder serves what is left, the provider sweeps, then everything must be unused
 	if e.held && !e.stuck && e.viol == nil {
 		if err := e.syncStep(EOp{K: "serve"}); err != nil {
-			return nil, err
+			return err
 		}
 	}
 	if !e.stuck && e.viol == nil {
 		if err := e.syncStep(EOp{K: "evict"}); err != nil {
-			return nil, err
+			return err
 		}
 	}
 	if err := e.quiesce("sync-session"); err != nil {
-		return nil, err
+		return err
 	}
-	return e, nil
+	return nil
 }
 
 func runAsync(ops []EOp) (*e2e, error) {
@@ -764,7 +983,7 @@ func runAsync(ops []EOp) (*e2e, error) {
 		go func(w int, l []EOp) {
 			defer wg.Done()
 			c := &e2e{srv: e.srv, t0: e.t0, srcIdx: map[string]int{}, tagOf: map[int]int{}, ts: int64(1000 + 1000000*w),
-				kept: map[int]*keptCur{}, counts: map[string]int{}, noK: true}
+				kept: map[int]*keptCur{}, counts: map[string]int{}, noK: true, stuckCh: make(chan struct{})}
 			for _, op := range l {
 				if c.stuck || c.viol != nil {
 					break
@@ -809,6 +1028,28 @@ func runAsync(ops []EOp) (*e2e, error) {
 			}
 			return false
 		})
+	}
+	idle := false
+	for _, op := range ops {
+		idle = idle || op.K == "idle"
+	}
+	if idle && len(e.pipes) > 0 && !e.stuck && e.viol == nil {
+		// the pipe workers end on their own (10 s after the last record) while their pipes still exist:
+		// workerDone then looks at every source of the pipe (cleanPartitionsUnsafe: GetJournalTags without
+		// acquiring) - nothing may stay acquired by that
+		ended := WaitFor(30*time.Second, func() bool {
+			for name := range e.pipes {
+				for _, r := range tindex.VC14Snapshot(e.srv.TIndex) {
+					if _, _, charged, ok := e.srv.Pipes.VC10PipeState(name, r.Src); ok && charged {
+						return false
+					}
+				}
+			}
+			return true
+		})
+		if ended {
+			e.counts["pipe-workers-ended-on-their-own"]++
+		}
 	}
 	if err := e.quiesce("async-session"); err != nil {
 		return nil, err
@@ -872,12 +1113,71 @@ func genE2EOps(r *Rng, async bool) []EOp {
 			op = EOp{K: "show", M: sub()}
 		}
 		op.Who = r.Intn(3)
+		if !async && r.Chance(1, 4) && ((op.K == "write" && (op.Fail == "" || op.Fail == "middle" || op.Fail == "iter")) || (op.K == "query" && op.Fail == "" && !op.Keep)) {
+			// 1-3 operations DURING this one (the writer / the waiting reader holds its partitions meanwhile)
+			if op.K == "query" {
+				op.Wait = true
+				op.Cur = r.Intn(3)
+			} else {
+				op.Rpc = false
+			}
+			for k := r.Range(1, 3); k > 0; k-- {
+				var in EOp
+				switch r.Intn(8) {
+				case 0:
+					in = EOp{K: "query", M: []int{op.Tag}, N: 5, Fail: "badpos"}
+				case 1:
+					in = EOp{K: "trunc", M: sub(), Mode: r.PickInt(0, 1, 2, 2, 3), Dry: r.Chance(1, 4)}
+				case 2:
+					in = EOp{K: "write", Tag: r.Intn(ntags), N: r.PickInt(1, 5), Fail: r.PickStr("", "", "first", "middle", "iter")}
+				case 3:
+					in = EOp{K: "query", M: sub(), N: 5, Keep: r.Chance(1, 2), Cur: r.Intn(3), Flt: r.PickInt(0, 4)}
+				case 4:
+					in = EOp{K: "evict"}
+				case 5:
+					in = EOp{K: "describe", Tag: r.Intn(ntags)}
+				case 6:
+					in = EOp{K: "cont", Cur: r.Intn(3), Pos: r.PickStr("next", "stale", "bad")}
+				default:
+					in = EOp{K: "show", M: sub()}
+				}
+				op.During = append(op.During, in)
+			}
+			if op.K == "query" {
+				// something to wake the reader up
+				op.During = append(op.During, EOp{K: "write", Tag: op.M[0], N: 2})
+			}
+		}
+		if op.K == "write" && op.Fail == "" && r.Chance(1, 5) {
+			op.Alt = true
+		}
 		ops = append(ops, op)
+		if !async && r.Chance(1, 8) && op.K != "hold" {
+			ops = append(ops, op) // the same request once more
+		}
 	}
 	return ops
 }
 
+// fiftyOne: 51 partitions; a request over all of them is refused by GetJournals (limit 50) after the 51st
+// was acquired: all released; a request over exactly 50 is served and kept; truncation in between
+func fiftyOne() []EOp {
+	var ops []EOp
+	all := make([]int, 51)
+	for t := 0; t < 51; t++ {
+		all[t] = t
+		ops = append(ops, EOp{K: "write", Tag: t, N: 1})
+	}
+	ops = append(ops, EOp{K: "query", M: all, N: 5}, EOp{K: "query", M: all[:50], N: 1, Keep: true, Cur: 0}, EOp{K: "query", M: all, N: 5, Fail: "badpos"},
+		EOp{K: "trunc", M: all, Mode: 2}, EOp{K: "evict"}, EOp{K: "trunc", M: all, Mode: 2})
+	return ops
+}
+
 func e2eCorpus() [][]EOp {
+	return append(e2eCorpusBase(), fiftyOne())
+}
+
+func e2eCorpusBase() [][]EOp {
 	return [][]EOp{
 		// a cursor request with an unparsable position over an unused partition
 		{{K: "write", Tag: 0, N: 3}, {K: "query", M: []int{0}, N: 5, Fail: "badpos"}},
@@ -894,6 +1194,21 @@ func e2eCorpus() [][]EOp {
 		// rebuild requests wait in the rebuilder's list while TRUNCATE drops the older chunks of the partition;
 		// then the rebuilder serves them (chunk not found): the partition must be unused afterwards
 		{{K: "hold"}, {K: "write", Tag: 0, N: 300}, {K: "write", Tag: 0, N: 300}, {K: "rebuild", Tag: 0}, {K: "trunc", M: []int{0}, Mode: 1}, {K: "serve"}, {K: "trunc", M: []int{0}, Mode: 2}},
+		// DURING a write (the writer holds the partition; hook "write-event"): a cursor request with an
+		// unparsable position on it, a truncation that must not delete it, a nested write, a failing nested write;
+		// the same during a write that fails in the middle
+		{{K: "write", Tag: 0, N: 3, During: []EOp{{K: "query", M: []int{0}, N: 5, Fail: "badpos"}, {K: "trunc", M: []int{0}, Mode: 2}, {K: "write", Tag: 0, N: 2}, {K: "write", Tag: 0, N: 4, Fail: "middle"}}},
+			{K: "write", Tag: 0, N: 4, Fail: "middle", During: []EOp{{K: "query", M: []int{0}, N: 1, Keep: true, Cur: 0}, {K: "trunc", M: []int{0}, Mode: 3}, {K: "query", M: []int{0}, N: 5, Flt: 4}}},
+			{K: "evict"}, {K: "trunc", M: []int{0}, Mode: 2}},
+		// while a request waits for new data at the end of two partitions (hook "wait-new-data"; its cursor
+		// holds them): truncation (refused), a failing write, an unparsable position, the sweep; then data arrives
+		{{K: "write", Tag: 0, N: 3}, {K: "write", Tag: 1, N: 3},
+			{K: "query", M: []int{0, 1}, N: 5, Wait: true, Cur: 0, During: []EOp{{K: "trunc", M: []int{0, 1}, Mode: 2}, {K: "write", Tag: 1, N: 3, Fail: "iter"}, {K: "query", M: []int{1}, N: 5, Fail: "badpos"}, {K: "evict"}, {K: "write", Tag: 2, N: 1}, {K: "write", Tag: 0, N: 2}}},
+			{K: "cont", Cur: 0, Pos: "next"}, {K: "evict"}, {K: "trunc", M: []int{0, 1, 2}, Mode: 2}},
+		// the same request twice; another spelling of the tag line; delete of the deleted
+		{{K: "write", Tag: 0, N: 2, Alt: true}, {K: "write", Tag: 0, N: 2}, {K: "query", M: []int{0}, N: 5, Fail: "badpos"}, {K: "query", M: []int{0}, N: 5, Fail: "badpos"},
+			{K: "query", M: []int{0}, N: 1, Keep: true, Cur: 0}, {K: "query", M: []int{0}, N: 1, Keep: true, Cur: 0}, {K: "evict"}, {K: "evict"},
+			{K: "trunc", M: []int{0}, Mode: 2}, {K: "trunc", M: []int{0}, Mode: 2}, {K: "describe", Tag: 0}, {K: "write", Tag: 0, N: 1, Fail: "first"}, {K: "trunc", M: []int{0}}, {K: "trunc", M: []int{0}}},
 		// a kept cursor is re-positioned (stale position, then a bad one)
 		{{K: "write", Tag: 0, N: 40}, {K: "query", M: []int{0}, N: 1, Keep: true, Cur: 1}, {K: "cont", Cur: 1, Pos: "next"}, {K: "cont", Cur: 1, Pos: "stale"}, {K: "cont", Cur: 1, Pos: "bad"}, {K: "show", M: []int{0}}},
 	}
@@ -914,8 +1229,10 @@ func mkE2E(ops []EOp, async bool, stream string) (*Case, error) {
 		return nil, err
 	}
 	var tags []string
-	for k := range e.counts {
-		tags = append(tags, "e2e-"+k)
+	if !e.abandoned {
+		for k := range e.counts {
+			tags = append(tags, "e2e-"+k)
+		}
 	}
 	sort.Strings(tags)
 	tags = append([]string{kind}, tags...)
